@@ -409,3 +409,36 @@ Qed.
 Example C17_scale_example_rejects : nn_safe 500 [0x1p+600; -0x1p+0; -0x1p+0] ex_resp 0 2 = false.
 Proof. vm_compute. reflexivity. Qed.
 
+
+(* ---- the tie of the two theorems above to the cases that are run.  For every `rel17scale` case line the model
+        runner EVALUATES the hypotheses (at every point of the production grid nn_safe, and ls_safe over the grid)
+        on the waveform, response and k of the line, and the line carries the implementation's verdict (scaled bit
+        for bit or not); "hypotheses true and not scaled exactly" is a violation.  The runner evaluates the
+        predicates in the form below, which computes the four bounds 2^(K-1021), 2^(1023-K), 2^(2K-1021),
+        2^(1023-2K) once instead of in every range test; it is the same function (by conversion). ---- *)
+From AG Require Import Signal.GreedyScaleFast.
+Theorem C17_nn_safe_fast_eq : forall (k : Z) (signal response : list float) (off la : nat),
+  nn_safe_fast k signal response off la = nn_safe k signal response off la.
+Proof. exact nn_safe_fast_eq. Qed.
+Print Assumptions C17_nn_safe_fast_eq.
+Theorem C17_ls_safe_fast_eq : forall (k : Z) (signal response : list float) (offs las : list nat),
+  ls_safe_fast k signal response offs las = ls_safe k signal response offs las.
+Proof. exact ls_safe_fast_eq. Qed.
+Print Assumptions C17_ls_safe_fast_eq.
+(* so the theorem in the form the runner uses it *)
+Theorem C17_ls_deconv_scale_f64_as_run : forall (k : Z) (signal response : list float) (offs las : list nat),
+  ls_safe_fast k signal response offs las = true ->
+  ls_deconv_f (map (fscale k) signal) response offs las =
+  res_map (map (fscale k)) (ls_deconv_f signal response offs las).
+Proof. intros k s r offs las H. apply C17_ls_deconv_scale_f64. rewrite <- C17_ls_safe_fast_eq. exact H. Qed.
+Print Assumptions C17_ls_deconv_scale_f64_as_run.
+Theorem C17_nn_greedy_scale_f64_as_run : forall (k : Z) (signal response : list float) (off la : nat),
+  nn_safe_fast k signal response off la = true ->
+  nn_greedy_f (map (fscale k) signal) response off la =
+  res_map (sc_out float (fscale k) (fscale2 k)) (nn_greedy_f signal response off la).
+Proof. intros k s r off la H. apply C17_nn_greedy_scale_f64. rewrite <- C17_nn_safe_fast_eq. exact H. Qed.
+Print Assumptions C17_nn_greedy_scale_f64_as_run.
+(* the predicate has both values on in-domain-sized numbers: beyond kmax it is false whatever the waveform *)
+Example C17_safe_false_beyond_kmax : ls_safe_fast 501 ex_sig ex_resp [0; 1]%nat [2; 3]%nat = false /\
+  ls_safe_fast 500 ex_sig ex_resp [0; 1]%nat [2; 3]%nat = false /\ ls_safe_fast 400 ex_sig ex_resp [0; 1]%nat [2; 3]%nat = true.
+Proof. repeat split; vm_compute; reflexivity. Qed.
